@@ -322,6 +322,9 @@ func buildPart(c *Case, r *Recipe, p int, s *side) *vlib.Failure {
 		s.readers = append(s.readers, rd2)
 	default:
 		s.writers = append(s.writers, w)
+		if r.mergeCapable() && r.Settle {
+			settle(w)
+		}
 		rd, err := w.Reader()
 		if err != nil {
 			return vlib.Failf("reader-error", "Writer.Reader: %v", err)
@@ -329,6 +332,32 @@ func buildPart(c *Case, r *Recipe, p int, s *side) *vlib.Failure {
 		s.readers = append(s.readers, rd)
 	}
 	return nil
+}
+
+// settle gives the background merger of a merge-capable writer a bounded chance to finish
+// before the reader is taken (the layout after the last merge introduction is a layout of its
+// own: offsets and deletion bitmaps are rebuilt there).  It only influences which layout is
+// observed, never the verdict: at most 30 looks 2 ms apart, done when the segment list was
+// the same four times in a row.
+func settle(w *bluge.Writer) {
+	last, same := "", 0
+	for i := 0; i < 30 && same < 4; i++ {
+		rd, err := w.Reader()
+		if err != nil {
+			return
+		}
+		cur := ""
+		for _, seg := range rd.VerifSnapshot().Segments() {
+			cur += fmt.Sprintf("%d,", seg.ID())
+		}
+		_ = rd.Close()
+		if cur == last {
+			same++
+		} else {
+			last, same = cur, 0
+		}
+		time.Sleep(2 * time.Millisecond)
+	}
 }
 
 // buildSide builds every index of the recipe and measures the layout of what will be searched.
